@@ -7,7 +7,7 @@ from check import Failure
 from sfv import gen
 from sfv.canon import tok, untok, err_cat, dtype_tok, array_toks
 
-TARGETS = ['SFModel.Props.C04', 'SFModel.Bridge', 'SFModel.Props.C02']
+TARGETS = ['SFModel.Props.C04', 'SFModel.Bridge', 'SFModel.Props.C02', 'SFModel.Props.C04Frame']
 THEOREMS = [
     'SF.C04.slice_positions_in_range', 'SF.C04.slice_positions_arith', 'SF.C04.slice_positions_complete_pos',
     'SF.C04.slice_positions_strict', 'SF.C04.int_position', 'SF.C04.mask_positions',
@@ -18,9 +18,18 @@ THEOREMS = [
     'SF.Bridge.contiguous_ref_bridge', 'SF.Bridge.contiguous_bridge',
     # label keys over a flat index: Series.loc / Frame.loc are run against Index.locToIlocP (driver op index.cloc), about which:
     'SF.C02.bijection', 'SF.C02.slice_inclusive', 'SF.C02.slice_inclusive_descending',
+    # the FRAME level (Props/C04Frame.lean; model Fr.iloc / Fr.loc = Frame._extract / Frame._extract_loc, driver ops
+    # frame.iloc / frame.loc): Key.positions + SF.C03.extract_refines (blocks) + Index._extract_iloc (labels) composed,
+    # and SF.C02.bijection composed with them for label keys
+    'SF.C04.frame_iloc_exact', 'SF.C04.frame_labels_nodup_iff', 'SF.C04.frame_iloc_element', 'SF.C04.frame_iloc_line',
+    'SF.C04.frame_iloc_error', 'SF.C04.frame_loc_positional', 'SF.C04.frame_loc_exact', 'SF.C04.frame_loc_element',
+    'SF.C03.extract_refines',
 ]
 PARTIAL = []
-CORR_ONLY = ['Frame/Series .iloc with every key kind on both axes (model: Key.positions + list selection in the harness)',
+CORR_ONLY = ['Frame/Series .iloc with every key kind on both axes (model: Key.positions + list selection in the harness); Frame.iloc / Frame.loc / '
+             'Frame.__getitem__ over flat, automatic and date axes (and untouched hierarchical ones) are ALSO run against the Lean Frame model '
+             'Fr.iloc / Fr.loc (whole answer: kind, labels and automatic/mapped state of both axes, name, every cell, dtypes, error category); '
+             'hierarchical axes under a non-null key and IndexDate label keys stay with the harness reference only',
              'label routes (.loc / getitem) on flat, auto, datetime and hierarchical axes (reference: dict label->position)',
              'label keys of every kind (label, list, slice with step in {None,1,2,3,-1,-2} and open / absent ends, Boolean mask of right and wrong length) over flat and automatic indices: Series.loc, Frame.loc[k] and Frame.loc[k, col] return exactly the rows the Lean Index model (Index.locToIlocP, the container route) addresses, and refuse what it refuses']
 RULE = ('seeded random frames/series (all dtype kinds, random block layouts, index kinds) x random keys '
@@ -152,14 +161,14 @@ def model_lines_(c):
         return ['gen.contiguous (' + ' '.join(f'({b} {col})' for b, col in c['l']) + ')']
     if c['k'] == 'lab':
         if c['sub'] == 'lmodel':
-            return [lmodel_line(c)]
+            return [lmodel_line(c)] + fm_lmodel_lines(c)
         if c['sub'] == 'chain':
             return [f'key.positions {gen.key_to_wire(c["key"])} {c["n"]}']
         return []
     if c['k'] == 'frame':
         spec = c['spec']
         return [f'key.positions {gen.key_to_wire(c["rk"])} {spec["rows"]}',
-                f'key.positions {gen.key_to_wire(c["ck"])} {len(spec["cols"])}']
+                f'key.positions {gen.key_to_wire(c["ck"])} {len(spec["cols"])}'] + fm_frame_lines(c)
     return []
 
 
@@ -224,11 +233,11 @@ def evaluate(ctx, c, outs):
         return fails
     if c['k'] == 'lab':
         if c['sub'] == 'lmodel':
-            return eval_lmodel(ctx, c, outs)
+            return eval_lmodel(ctx, c, outs[:1]) + fm_eval(ctx, c, outs[1:])
         if c['sub'] == 'chain':
             return eval_chain(ctx, c, outs)
         return eval_lab(ctx, c)
-    return eval_frame(ctx, c, outs)
+    return eval_frame(ctx, c, outs[:2]) + fm_eval(ctx, c, outs[2:])
 
 
 LM_POOL = ['a', 'b', 'c', 1, 2, 3, 'zz', 10, -1, 'x', 'ab', 7]
@@ -882,6 +891,237 @@ def untok_time(t):
 def untok_num(t):
     v = untok(t)
     return v
+
+
+# ----------------------------------------------------------------------------- the Lean Frame model (SFModel.FrameSel)
+# `Fr.iloc` mirrors Frame._extract (blocks first, then the row index, then the columns; element / Series / Frame),
+# `Fr.loc` = Index._loc_to_iloc on each axis (columns first) followed by `Fr.iloc`; theorems SF.C04.frame_* are about them.
+# Every 'frame' case whose axes the flat-index model covers and every 'lmodel' case is sent through the driver ops
+# frame.iloc / frame.loc and the WHOLE answer is compared with the real Frame.iloc / Frame.loc / Frame.__getitem__ result.
+_FM = {}     # id(case) -> what model_lines sent (interners, the real calls); consumed by evaluate of the same case
+
+
+def _fm_ix_wire(ix, auto, lit):
+    if auto:
+        return f'(a {len(ix)})'
+    return '(m ' + ' '.join(lit.lab(x) for x in ix) + ')'
+
+
+def _fm_fr_wire(f, auto_r, auto_c, cit, lit):
+    from sfv.tbwire import tb_wire_from_blocks
+    tb = f._blocks
+    return (f'(fr {_fm_ix_wire(f.index, auto_r, lit)} {_fm_ix_wire(f.columns, auto_c, lit)} '
+            f'{tb_wire_from_blocks(tb._blocks, tb._shape[0], cit)})')
+
+
+def _fm_lkey_wire(pk, lit):
+    if isinstance(pk, slice):
+        g = lambda v: 'N' if v is None else lit.lab(v)
+        return f'(sl {g(pk.start)} {g(pk.stop)} {"N" if pk.step is None else int(pk.step)})'
+    if isinstance(pk, np.ndarray):
+        return '(mask ' + ' '.join(str(int(b)) for b in pk) + ')'
+    if isinstance(pk, list):
+        return '(list ' + ' '.join(lit.lab(v) for v in pk) + ')'
+    return f'(lab {lit.lab(pk)})'
+
+
+def _fm_null(key):
+    return key[0] == 'all' or (key[0] == 'sl' and key[1] is None and key[2] is None and key[3] is None)
+
+
+def _fm_interners():
+    from sfv.props.ixcommon import Interner as LabInterner
+    from sfv.tbwire import Interner as CellInterner
+    return CellInterner(), LabInterner()
+
+
+def fm_frame_lines(c):
+    """the frame-level driver line of a 'frame' case ([] when an axis is outside the flat-index model)"""
+    spec, route, rk, ck = c['spec'], c['route'], c['rk'], c['ck']
+    m = len(spec['cols'])
+    f = gen.build_frame(spec)
+    rlabels, clabels = list(f.index), list(f.columns)
+    lrk = lck = None
+    if route in ('loc2', 'loc_r', 'getitem', 'sloc'):
+        # the same fall-back to the positional route as eval_frame
+        lrk, ok1 = label_key(rk, rlabels, 'r')
+        lck, ok2 = label_key(ck, clabels, 'c')
+        if route == 'loc2' and not (ok1 and ok2):
+            route = 'iloc2'
+        elif route in ('loc_r', 'sloc') and not ok1:
+            route = 'iloc_r' if route == 'loc_r' else 'series'
+        elif route == 'getitem' and not ok2:
+            route = 'iloc2'
+    if route in ('series', 'sloc') and m == 0:
+        return []
+    prk, pck = gen.key_to_py(rk), gen.key_to_py(ck)
+    null = ['all']
+    if route == 'iloc2':
+        op, krk, kck, fn, desc = 'iloc', rk, ck, (lambda: f.iloc[prk, pck]), 'iloc[rk, ck]'
+    elif route == 'iloc_r':
+        op, krk, kck, fn, desc = 'iloc', rk, null, (lambda: f.iloc[prk]), 'iloc[rk]'
+    elif route == 'series':
+        # the Frame route to the same Series: column 0 addressed as an integer
+        op, krk, kck, fn, desc = 'iloc', rk, ['int', 0], (lambda: f.iloc[prk, 0]), 'iloc[rk, 0]'
+    elif route == 'loc2':
+        op, krk, kck, fn, desc = 'loc', rk, ck, (lambda: f.loc[lrk, lck]), 'loc[rk, ck]'
+    elif route == 'loc_r':
+        op, krk, kck, fn, desc = 'loc', rk, null, (lambda: f.loc[lrk]), 'loc[rk]'
+        lck = slice(None)
+    elif route == 'getitem':
+        op, krk, kck, fn, desc = 'loc', null, ck, (lambda: f[lck]), 'getitem[ck]'
+        lrk = slice(None)
+    else:
+        c0 = clabels[0]
+        op, krk, kck, fn, desc = 'loc', rk, ['int', 0], (lambda: f.loc[lrk, c0]), 'loc[rk, c0]'
+        lck = c0
+    # which axes the flat-index model covers
+    for spec_ix, key in ((spec['index'], krk), (spec['columns'], kck)):
+        kind = spec_ix['kind']
+        if _fm_null(key):
+            continue            # the axis is handed on as it is: its labels are opaque
+        if kind == 'ih':
+            return []           # IndexHierarchy._extract_iloc / _loc_to_iloc are not Index's
+        if op == 'loc' and (kind == 'date' or 'N' in spec_ix['labels']):
+            return []           # IndexDate._loc_to_iloc is its own; None as a label key means "no key"
+    cit, lit = _fm_interners()
+    fr = _fm_fr_wire(f, spec['index']['kind'] == 'auto', spec['columns']['kind'] == 'auto', cit, lit)
+    if op == 'iloc':
+        line = f'frame.iloc {fr} {gen.key_to_wire(krk)} {gen.key_to_wire(kck)}'
+    else:
+        line = f'frame.loc {fr} {_fm_lkey_wire(lrk, lit)} {_fm_lkey_wire(lck, lit)}'
+    _FM[id(c)] = {'cit': cit, 'lit': lit, 'calls': [(f'{op} {desc} rk={krk} ck={kck}', fn, krk[0] == 'int')]}
+    return [line]
+
+
+def fm_lmodel_frame(c):
+    import static_frame as sf
+    n = c['n']
+    vals = [untok(t) for t in c['labels']]
+    data = [10 * i for i in range(n)]
+    items = (('v', data), ('w', [str(i) for i in range(n)]))
+    return sf.Frame.from_items(items) if c['lkind'] == 'auto' else sf.Frame.from_items(items, index=vals)
+
+
+def fm_lmodel_lines(c):
+    """Frame.loc[k, 'v'] and Frame.loc[k] of an 'lmodel' case through the Frame model"""
+    f = fm_lmodel_frame(c)
+    key = c['key']
+    u = lambda t: None if t is None else untok(t)
+    if key[0] == 'lab':
+        pk = u(key[1])
+    elif key[0] == 'list':
+        pk = [u(t) for t in key[1:]]
+    elif key[0] == 'sl':
+        pk = slice(u(key[1]), u(key[2]), key[3])
+    else:
+        pk = np.array([bool(b) for b in key[1:]], dtype=bool)
+    cit, lit = _fm_interners()
+    fr = _fm_fr_wire(f, c['lkind'] == 'auto', False, cit, lit)
+    kw = _fm_lkey_wire(pk, lit)
+    scalar = key[0] == 'lab'
+    _FM[id(c)] = {'cit': cit, 'lit': lit, 'calls': [
+        (f'loc lmodel[k, "v"] k={key} labels={c["labels"]}', (lambda: f.loc[pk, 'v']), scalar),
+        (f'loc lmodel[k] k={key} labels={c["labels"]}', (lambda: f.loc[pk]), scalar)]}
+    return [f'frame.loc {fr} {kw} (lab {lit.lab("v")})', f'frame.loc {fr} {kw} (sl N N N)']
+
+
+def fm_eval(ctx, c, outs):
+    st = _FM.pop(id(c), None)
+    if st is None or not outs:
+        return []
+    fails = []
+    for (desc, fn, row_int), out in zip(st['calls'], outs):
+        fails += fm_compare(ctx, c, st, desc, fn, row_int, out)
+    return fails
+
+
+def _fm_short(r, n=200):
+    s = repr(r).replace('\n', ' ')
+    return s if len(s) <= n else s[:n] + '...'
+
+
+def fm_compare(ctx, c, st, desc, fn, row_int, out):
+    """kind of result, labels of both axes (and whether the index is still the automatic one), every cell token, the name,
+    dtypes of the kept columns, error vs data (and the error category): model answer vs the real call"""
+    import static_frame as sf
+    from sfv.props.ixcommon import parse_answer
+    from sfv.tbwire import real_tb_view
+    cit, lit = st['cit'], st['lit']
+    ans = parse_answer(out)
+
+    def bad(what):
+        return [Failure('corr', f'Frame model vs Frame.{desc}: {what}', c)]
+    if ans[0] == 'bad':
+        return bad(f'the driver refused the line: {out}')
+    try:
+        res, err = fn(), None
+    except Exception as ex:
+        res, err = None, ex
+    ctx.count('fmodel_' + desc.split(' ')[0])
+    ctx.count('fmodel_route_' + desc.split(' ')[1].split('[')[0])
+    if ans[0] == 'err':
+        ctx.count(f'fmodel_err_{ans[1]}')
+        if err is None:
+            return bad(f'the model refuses the key ({ans[1]}), the real call returned {_fm_short(res)}')
+        if err_cat(err) != ans[1] and not (ans[1] == 'nonUnique' and err_cat(err) == 'indexInit'):
+            if ans[1] == 'lookup' and isinstance(err, TypeError):
+                # a label that is no integer handed on as a position by an automatic index: NumPy / the slice arithmetic
+                # answer TypeError where the model (Index.asInt) says lookup
+                ctx.count('fmodel_err_lookup_is_TypeError')
+                return []
+            return bad(f'the model refuses the key with {ans[1]}, the real call raised {type(err).__name__} ({err_cat(err)}): {err}')
+        return []
+    if err is not None:
+        return bad(f'the real call raised {type(err).__name__}: {err}; the model answers {out[:160]}')
+    sx = ans[1]
+    kind = sx[0]
+    ctx.count(f'fmodel_kind_{kind}')
+
+    def ix_view(ix):
+        return ['A' if getattr(ix, '_map', 0) is None else 'M'] + [lit.lab(x) for x in ix]
+    if kind == 'elem':
+        if isinstance(res, (sf.Series, sf.Frame)):
+            return bad(f'the model answers an element, the real call a {type(res).__name__}')
+        if not cell_equal(tok(res), cit.token(sx[1])):
+            return bad(f'element {tok(res)} vs model {cit.token(sx[1])}')
+        return []
+    if kind == 'line':
+        if not isinstance(res, sf.Series):
+            return bad(f'the model answers a Series, the real call {_fm_short(res)}')
+        mv = [cit.token(a) for a in sx[1]]
+        gv = array_toks(res.values)
+        if ix_view(res.index) != sx[2]:
+            return bad(f'Series labels {ix_view(res.index)} vs model {sx[2]}')
+        if lit.lab(res.name) != sx[3]:
+            return bad(f'Series name {res.name!r} ({lit.lab(res.name)}) vs model {sx[3]}')
+        # a row is consolidated to one array: numeric cells may widen (cell_equal); a column keeps its array
+        same = len(gv) == len(mv) and (all(cell_equal(a, b) for a, b in zip(gv, mv)) if row_int else gv == mv)
+        if not same:
+            return bad(f'Series values {gv} vs model {mv}')
+        return []
+    if kind != 'frame':
+        return bad(f'unreadable answer {out[:160]}')
+    if not isinstance(res, sf.Frame):
+        return bad(f'the model answers a Frame, the real call {_fm_short(res)}')
+    if ix_view(res.index) != sx[1] or ix_view(res.columns) != sx[2]:
+        return bad(f'Frame labels {ix_view(res.index)} x {ix_view(res.columns)} vs model {sx[1]} x {sx[2]}')
+    tbx = sx[3]
+    cols, dts = [], []
+    for b in tbx[2:]:
+        if b[0] == 'd1':
+            cols.append([cit.token(a) for a in b[2:]])
+            dts.append(b[1])
+        else:
+            for col in b[2:]:
+                cols.append([cit.token(a) for a in col])
+                dts.append(b[1])
+    real = real_tb_view(res._blocks)
+    if int(tbx[1]) != real['rows'] or res.shape != (len(sx[1]) - 1, len(sx[2]) - 1):
+        return bad(f'shape {res.shape} (block rows {real["rows"]}) vs model rows {tbx[1]}, labels {len(sx[1]) - 1} x {len(sx[2]) - 1}')
+    if cols != real['cols'] or dts != real['dtypes']:
+        return bad(f'cells {real["cols"]} dtypes {real["dtypes"]} vs model {cols} {dts}')
+    return []
 
 
 def classify(f):
